@@ -90,6 +90,7 @@ func (pg *PERIOGroup) stopTicker() {
 
 type Server struct {
 	evtCh     chan Event
+	done      chan struct{}                 // closed when Serve has returned
 	perioList map[time.Duration]*PERIOGroup // key: period
 
 	handler  report.Handler
@@ -99,6 +100,7 @@ type Server struct {
 func OpenServer(wg *sync.WaitGroup) (*Server, error) {
 	s := &Server{
 		evtCh:     make(chan Event, EVENT_CHANNEL_LEN),
+		done:      make(chan struct{}),
 		perioList: make(map[time.Duration]*PERIOGroup),
 	}
 
@@ -109,7 +111,17 @@ func OpenServer(wg *sync.WaitGroup) (*Server, error) {
 }
 
 func (s *Server) Close() {
-	s.evtCh <- Event{eType: TYPE_SERVER_CLOSE}
+	s.post(Event{eType: TYPE_SERVER_CLOSE})
+}
+
+// post hands an event to the server goroutine; once that goroutine has
+// returned the event is dropped (the PFCP loop may still be removing URRs
+// while the forwarder is being closed)
+func (s *Server) post(e Event) {
+	select {
+	case s.evtCh <- e:
+	case <-s.done:
+	}
 }
 
 func (s *Server) Handle(
@@ -124,7 +136,7 @@ func (s *Server) Serve(wg *sync.WaitGroup) {
 	logger.PerioLog.Infof("perio server started")
 	defer func() {
 		logger.PerioLog.Infof("perio server stopped")
-		close(s.evtCh)
+		close(s.done)
 		wg.Done()
 	}()
 
@@ -225,18 +237,18 @@ func (s *Server) Serve(wg *sync.WaitGroup) {
 }
 
 func (s *Server) AddPeriodReportTimer(lSeid uint64, urrid uint32, period time.Duration) {
-	s.evtCh <- Event{
+	s.post(Event{
 		eType:  TYPE_PERIO_ADD,
 		lSeid:  lSeid,
 		urrid:  urrid,
 		period: period,
-	}
+	})
 }
 
 func (s *Server) DelPeriodReportTimer(lSeid uint64, urrid uint32) {
-	s.evtCh <- Event{
+	s.post(Event{
 		eType: TYPE_PERIO_DEL,
 		lSeid: lSeid,
 		urrid: urrid,
-	}
+	})
 }
